@@ -74,14 +74,14 @@ Theorem identity_passthrough : forall enc dec cdec cc sc r,
   In s_empty (eff_algs sc) -> ~ In s_empty (map fst sc.(s_custom)) ->
   let b := body_bytes r.(q_body) in
   (Z.of_nat (List.length b) <= eff_max sc)%Z ->
-  e2e enc dec cdec cc sc r = Some (Handled r.(q_ce) (Z.of_nat (List.length b)) (b, E_EOF)).
+  e2e enc dec cdec cc sc r = Some (Handled r.(q_ce) (if r.(q_stream) then (-1)%Z else blen b) (b, E_EOF)).
 Proof. exact identity_e2e_l. Qed.
 Print Assumptions identity_passthrough.
 
 Theorem identity_passthrough_server : forall dec cdec sc w,
   hget w.(w_ce) = s_empty -> In s_empty (eff_algs sc) -> clookup sc.(s_custom) s_empty = None ->
   (Z.of_nat (List.length w.(w_body)) <= eff_max sc)%Z ->
-  server dec cdec sc w = Handled w.(w_ce) (Z.of_nat (List.length w.(w_body))) (w.(w_body), E_EOF).
+  server dec cdec sc w = Handled w.(w_ce) w.(w_cl) (w.(w_body), E_EOF).
 Proof. exact identity_server_l. Qed.
 Print Assumptions identity_passthrough_server.
 
@@ -173,11 +173,21 @@ Theorem limit_exact_identity : forall dec cdec sc w,
   clookup sc.(s_custom) (hget (w_ce w)) = None ->
   hget (w_ce w) = s_empty -> In s_empty (eff_algs sc) ->
   (Z.of_nat (List.length (w_body w)) > eff_max sc)%Z ->
-  server dec cdec sc w = Handled (w_ce w) (Z.of_nat (List.length (w_body w)))
+  server dec cdec sc w = Handled (w_ce w) (w_cl w)
                                  (firstn (Z.to_nat (eff_max sc)) (w_body w), E_TOOLARGE) /\
   Z.of_nat (List.length (firstn (Z.to_nat (eff_max sc)) (w_body w))) = eff_max sc.
 Proof. exact limit_exact_identity_l. Qed.
 Print Assumptions limit_exact_identity.
+
+(* The length a request declares (Content-Length, or none: Transfer-Encoding chunked, w_cl = -1) is an
+   independent input of the server model, so [limit_holds], [limit_exact_*], [unsupported_rejected]
+   above hold for every declared length.  Explicitly: changing only the declared length changes
+   nothing but the ContentLength the handler is shown — not the outcome, not the header, not one
+   byte of what the handler can read, not where its read fails. *)
+Theorem server_ignores_declared_length : forall dec cdec sc w cl',
+  strip_cl (server dec cdec sc (set_cl w cl')) = strip_cl (server dec cdec sc w).
+Proof. exact server_ignores_declared_length_l. Qed.
+Print Assumptions server_ignores_declared_length.
 
 (* ---- the client ------------------------------------------------------------------------------------ *)
 Theorem preset_encoding_not_recompressed : forall enc cc r w,
@@ -193,8 +203,8 @@ Print Assumptions preset_encoding_sent_as_is.
 Theorem client_compresses : forall enc cc r c,
   client_validate cc = true -> is_compressed cc.(c_type) = true -> writer_codec cc.(c_type) = Some c ->
   hget r.(q_ce) = s_empty -> body_ok r = true ->
-  client enc cc r = CSent {| w_ce := r.(q_ce) ++ [cc.(c_type)];
-                             w_body := enc c (writer_level c (effective_level cc.(c_level))) (body_bytes r.(q_body)) |}.
+  let buf := enc c (writer_level c (effective_level cc.(c_level))) (body_bytes r.(q_body)) in
+  client enc cc r = CSent {| w_ce := r.(q_ce) ++ [cc.(c_type)]; w_body := buf; w_cl := blen buf |}.
 Proof. exact client_compresses_l. Qed.
 Print Assumptions client_compresses.
 
@@ -227,6 +237,6 @@ Print Assumptions raw_body_bounded.
 Theorem lserver_sound : forall dec cdec sc w,
   let body1 := max_bytes (eff_max sc) (w_body w, E_EOF) in
   loabs (server dec cdec sc w) =
-  lserver sc (fun c => ldabs (dec c body1)) (fun i => ldabs (cdec i body1)) (w_ce w) (Z.of_nat (List.length (w_body w))).
+  lserver sc (fun c => ldabs (dec c body1)) (fun i => ldabs (cdec i body1)) (w_ce w) (Z.of_nat (List.length (w_body w))) (w_cl w).
 Proof. exact lserver_sound_l. Qed.
 Print Assumptions lserver_sound.
